@@ -32,9 +32,9 @@ THEOREMS = [
     'Pyiga.Props.C06.geo_hess_trf_value', 'Pyiga.Props.C06.phys_to_para_spacetime', 'Pyiga.Props.C06.spacetime_time_derivs',
     'Pyiga.Props.C06.input_derivs_sound', 'Pyiga.Props.C06.sym_index_packing', 'Pyiga.Props.C06.measures_sound',
     'Pyiga.Props.C06.jacinv_right_inverse', 'Pyiga.Props.C06.dx_expansion_sound', 'Pyiga.Props.C06.phys_to_para_sound', 'Pyiga.Props.C06.jacinv_right_inverse_dim3',
-    'Pyiga.Props.C06.chain_rule_env_of_defs', 'Pyiga.Props.C06.phys_to_para_sound_spacetime', 'Pyiga.Props.C06.chain_rule_first_order', 'Pyiga.Props.C06.chain_rule_second_order',
+    'Pyiga.Props.C06.chain_rule_env_of_defs', 'Pyiga.Props.C06.phys_to_para_sound_spacetime', 'Pyiga.Props.C06.scheduled_phys_to_para', 'Pyiga.Props.C06.chain_rule_first_order', 'Pyiga.Props.C06.chain_rule_second_order',
 ]
-MODULES = ['Pyiga.Model.VForm', 'Pyiga.Model.SLP', 'Pyiga.Proofs.VForm', 'Pyiga.Proofs.VFormAlg', 'Pyiga.Proofs.VFormKey', 'Pyiga.Proofs.VFormPhys', 'Pyiga.Proofs.VFormPhys2', 'Pyiga.Proofs.VFormPhys3', 'Pyiga.Proofs.VFormPhys4', 'Pyiga.Proofs.VFormPhys5', 'Pyiga.Model.VFormPhys', 'Pyiga.Proofs.SLP', 'Pyiga.Props.C06']
+MODULES = ['Pyiga.Model.VForm', 'Pyiga.Model.SLP', 'Pyiga.Proofs.VForm', 'Pyiga.Proofs.VFormAlg', 'Pyiga.Proofs.VFormKey', 'Pyiga.Proofs.VFormPhys', 'Pyiga.Proofs.VFormPhys2', 'Pyiga.Proofs.VFormPhys3', 'Pyiga.Proofs.VFormPhys4', 'Pyiga.Proofs.VFormPhys5', 'Pyiga.Proofs.VFormPhys6', 'Pyiga.Model.VFormPhys', 'Pyiga.Proofs.SLP', 'Pyiga.Props.C06']
 
 
 # ----------------------------------------------------------------------------- helpers
